@@ -1,3 +1,6 @@
+(* [deepened: the full MGM statement (mgm_terminates_k, mgm_no_deadlock, mgm_trace_ok, the barrier
+   invariant) is now proved for every schedule in P_Mgm3*.v -- see the section 'deepening' below;
+   the text that follows describes the first version and still applies to DSA and MGM2] *)
 (* Prop_C07.v -- C07: cycle-bounded local search (MGM, MGM2, DSA) finishes after stop_cycle cycles.
    Only statements; each closed by an exact lemma from P_Mgm / P_Dsa / P_Mgm2.
 
@@ -18,7 +21,7 @@
    computations against these models under seeded FIFO schedules) and on the oracle of
    harness/props/C07.py.  Hence the suffix _partial on the statements that are weaker than the
    property. *)
-From PyDcop Require Import Base Net M_Mgm M_Dsa M_Mgm2 P_Mgm P_Dsa P_Mgm2.
+From PyDcop Require Import Base Net M_Mgm M_Dsa M_Mgm2 P_Mgm P_Dsa P_Mgm2 P_Mgm3 P_Mgm3c P_Mgm3b P_Dsa3.
 
 (* MGM, every schedule: the handlers never process a postponed list re-entrantly (no EvErr event
    at all: the model has no other error branch), and every started computation has an empty
@@ -65,6 +68,113 @@ Theorem dsa_stopped_silent_partial : forall d stop variant prob fovc n s src m, 
   \/ (exists g, m = MGain g).
 Proof. exact dsa_stopped_silent_l. Qed.
 
+(* ------------------------------------------------------------------ deepening (P_Mgm3*.v)
+   MGM, FULL statement of C07, every DCOP, oracle and EVERY schedule of starts and FIFO deliveries.
+
+   The global barrier invariant [P_Mgm3.Inv] (statement in P_Mgm3.v): value phase / gain phase
+   alternate; for every ordered pair of neighbours (a,b), what b has consumed from a (completed
+   phases + current table + postponed list), then b's pre-start buffer, then channel (a,b) are
+   exactly the consecutive messages a has produced -- with their payloads: the j-th message of a
+   is the value (j even) or the gain (j odd) of round j/2 of the synchronous reference run
+   [P_Mgm3.siter] (iteration of M_Mgm.mgm_next with the node's own draws); the tables are never
+   complete at rest; postponed senders are in the current table; a finished computation holds
+   nothing. *)
+Theorem mgm_barrier_invariant : forall d stop orc, 0 <= stop -> forall cf,
+  reachable (mgm_proto d stop orc) cf -> Inv d stop orc cf.
+Proof. exact reachable_inv. Qed.
+
+(* neighbours are at most one phase (half a cycle) apart *)
+Theorem mgm_neighbours_one_phase_apart : forall d stop orc cf a b, 0 <= stop ->
+  reachable (mgm_proto d stop orc) cf -> In a (nbrs d b) ->
+  (ph (w_st (nodes cf b)) <= ph (w_st (nodes cf a)) + 1)%nat.
+Proof. exact mgm_one_phase_apart_l. Qed.
+
+(* every execution: no handler error; every value selection stamped k selects the value of the
+   reference run after k rounds; finished() carries cycle counter stop_cycle (0 for a variable
+   without neighbour) and is reported at most once per computation *)
+Theorem mgm_trace_ok : forall d stop orc sched, 0 <= stop ->
+  let evs := snd (run (mgm_proto d stop orc) sched) in
+  (forall n k, ~ In (EvErr n k) evs) /\
+  (forall n v c k, In (EvValue n v c k) evs -> 0 <= k /\ v = RA d orc (Z.to_nat k) n) /\
+  (forall n k, In (EvFinished n k) evs -> k = fin_cycle d stop n) /\
+  (forall x, (count_fin x evs <= 1)%nat).
+Proof. exact mgm_trace_ok_closed. Qed.
+
+(* mgm_terminates_k: for every k > 0 and every schedule ending in a quiescent configuration (every
+   computation that has a neighbour started, no message in flight), there was no error and every
+   started computation has reported finished EXACTLY once, with cycle counter k (0 without
+   neighbour), holds no postponed or buffered message and waits in state "values" *)
+Theorem mgm_terminates_k : forall d stop orc sched, 0 < stop ->
+  let cf := fst (run (mgm_proto d stop orc) sched) in
+  let evs := snd (run (mgm_proto d stop orc) sched) in
+  (forall x, nbrs d x <> [] -> w_running (nodes cf x) = true) ->
+  (forall a b, chan cf a b = []) ->
+  (forall n k, ~ In (EvErr n k) evs) /\
+  (forall x, w_running (nodes cf x) = true ->
+     count_fin x evs = 1%nat /\
+     (forall k, In (EvFinished x k) evs -> k = fin_cycle d stop x) /\
+     m_cycle (w_st (nodes cf x)) = fin_cycle d stop x /\
+     m_fin (w_st (nodes cf x)) = 1 /\ w_held (nodes cf x) = [] /\
+     (nbrs d x <> [] -> m_state (w_st (nodes cf x)) = SValues /\ m_nv (w_st (nodes cf x)) = [] /\
+        m_ng (w_st (nodes cf x)) = [] /\ m_pv (w_st (nodes cf x)) = [] /\ m_pg (w_st (nodes cf x)) = [])).
+Proof. exact mgm_terminates_k_closed. Qed.
+
+(* no computation is left waiting for a message that will never come: while some computation with
+   a neighbour has not finished (all of them started), a message is in flight (stop = 0: always) *)
+Theorem mgm_no_deadlock : forall d stop orc cf, 0 <= stop ->
+  reachable (mgm_proto d stop orc) cf ->
+  (forall x, nbrs d x <> [] -> w_running (nodes cf x) = true) ->
+  (exists x, nbrs d x <> [] /\ finb stop (w_st (nodes cf x)) = false) ->
+  ~ (forall a b, chan cf a b = []).
+Proof. exact mgm_no_deadlock_closed. Qed.
+
+(* ------------------------------------------------------------------ deepening, DSA (P_Dsa3.v)
+   the same for DsaComputation: global barrier invariant [P_Dsa3.DInv] (per ordered pair of
+   neighbours the messages buffered + in flight are what a has sent minus what b has consumed =
+   cycle counter + current_cycle entry + next_cycle entry; all of them are value messages;
+   current_cycle never complete at rest; next_cycle senders are in current_cycle; a stopped
+   computation holds nothing), every DCOP, variant, probability, oracle, EVERY schedule *)
+Theorem dsa_barrier_invariant : forall d stop variant prob fovc orc, 0 <= stop -> forall cf,
+  reachable (dsa_proto d stop variant prob fovc orc) cf -> DInv d stop orc cf.
+Proof. exact dreachable_inv. Qed.
+
+Theorem dsa_neighbours_one_cycle_apart : forall d stop variant prob fovc orc, 0 <= stop -> forall cf a b,
+  reachable (dsa_proto d stop variant prob fovc orc) cf -> In a (nbrs d b) ->
+  ds_cycle (w_st (nodes cf b)) <= ds_cycle (w_st (nodes cf a)) + 1.
+Proof. exact dsa_one_cycle_apart_l. Qed.
+
+(* no error event (in particular no gain message ever reaches a DSA computation); finished() carries
+   cycle counter stop_cycle (0 without neighbour), at most once per computation *)
+Theorem dsa_trace_ok : forall d stop variant prob fovc orc, 0 <= stop -> forall sched,
+  let evs := snd (run (dsa_proto d stop variant prob fovc orc) sched) in
+  (forall n k, ~ In (EvErr n k) evs) /\
+  (forall n k, In (EvFinished n k) evs -> k = fin_cycle d stop n) /\
+  (forall x, (count_fin x evs <= 1)%nat /\
+             Z.of_nat (count_fin x evs) = ds_fin (w_st (nodes (fst (run (dsa_proto d stop variant prob fovc orc) sched)) x))).
+Proof. exact dsa_trace_ok_l. Qed.
+
+(* dsa_terminates_k (full): k > 0, final configuration with every computation that has a neighbour
+   started and no message in flight => no error, every started computation finished exactly once with
+   cycle counter k (0 without neighbour), is stopped and holds nothing *)
+Theorem dsa_terminates_k : forall d stop variant prob fovc orc sched, 0 < stop ->
+  let cf := fst (run (dsa_proto d stop variant prob fovc orc) sched) in
+  let evs := snd (run (dsa_proto d stop variant prob fovc orc) sched) in
+  (forall x, nbrs d x <> [] -> w_running (nodes cf x) = true) -> (forall a b, chan cf a b = []) ->
+  (forall n k, ~ In (EvErr n k) evs) /\
+  (forall x, w_running (nodes cf x) = true ->
+     count_fin x evs = 1%nat /\ (forall k, In (EvFinished x k) evs -> k = fin_cycle d stop x) /\
+     ds_cycle (w_st (nodes cf x)) = fin_cycle d stop x /\ ds_fin (w_st (nodes cf x)) = 1 /\
+     w_held (nodes cf x) = [] /\
+     (nbrs d x <> [] -> ds_stopped (w_st (nodes cf x)) = true /\ ds_cur (w_st (nodes cf x)) = [] /\
+                        ds_nxt (w_st (nodes cf x)) = [] /\ ds_held (w_st (nodes cf x)) = [])).
+Proof. exact dsa_terminates_k_closed. Qed.
+
+Theorem dsa_no_deadlock : forall d stop variant prob fovc orc, 0 <= stop -> forall cf,
+  reachable (dsa_proto d stop variant prob fovc orc) cf ->
+  (forall x, nbrs d x <> [] -> w_running (nodes cf x) = true) ->
+  (exists x, nbrs d x <> [] /\ ds_stopped (w_st (nodes cf x)) = false) -> ~ (forall a b, chan cf a b = []).
+Proof. exact dsa_no_deadlock_l. Qed.
+
 (* non-vacuity: two MGM computations sharing one constraint, stop_cycle = 2, v1 started first and its
    value delivered to v0 before v0 starts (held, then re-injected); the schedule is complete: both
    finish exactly once with cycle counter 2 and all channels are empty at the end *)
@@ -79,4 +189,23 @@ Example c07_nonvacuous :
            EvValue 1 1 (Some 1) 1; EvCycle 1 2; EvFinished 1 2; EvCycle 0 2; EvFinished 0 2]
   /\ chan (fst r) 0 1 = [] /\ chan (fst r) 1 0 = []
   /\ m_fin (w_st (nodes (fst r) 0)) = 1 /\ m_fin (w_st (nodes (fst r) 1)) = 1.
+Proof. vm_compute. repeat split; reflexivity. Qed.
+(* the hypotheses of mgm_terminates_k hold for this run (both started, every channel between the
+   two computations empty) and the reference run gives the values the trace shows: (0,0) then (0,1) *)
+Example c07_nonvacuous_ref :
+  let r := run (mgm_proto ex_d 2 (fun _ => [])) ex_sched in
+  map (fun x => w_running (nodes (fst r) x)) [0; 1] = [true; true]
+  /\ map (nbrs ex_d) [0; 1] = [[1]; [0]]
+  /\ map (RA ex_d (fun _ => []) 0) [0; 1] = [0; 0] /\ map (RA ex_d (fun _ => []) 1) [0; 1] = [0; 1]
+  /\ map (fun x => count_fin x (snd r)) [0; 1] = [1%nat; 1%nat] /\ fin_cycle ex_d 2 0 = 2.
+Proof. vm_compute. repeat split; reflexivity. Qed.
+
+(* DSA on the same instance (variant A, probability 1, stop_cycle 2): complete run, both finish once
+   with cycle counter 2 *)
+Example c07_nonvacuous_dsa :
+  let r := run (dsa_proto ex_d 2 0 1000 false (fun _ => [0; 0; 0; 0; 0; 0])) 
+               [Start 0; Start 1; Deliver 0 1; Deliver 1 0; Deliver 0 1; Deliver 1 0] in
+  map (fun x => count_fin x (snd r)) [0; 1] = [1%nat; 1%nat]
+  /\ map (fun x => ds_cycle (w_st (nodes (fst r) x))) [0; 1] = [2; 2]
+  /\ chan (fst r) 0 1 = [] /\ chan (fst r) 1 0 = [].
 Proof. vm_compute. repeat split; reflexivity. Qed.
